@@ -261,6 +261,20 @@ static PathsD to_D(const Paths64& ps, int dec) {
   }
   return r;
 }
+// Moves some coordinates onto exact rounding ties of the precision: v = odd / 2^(prec+1) gives v * 10^prec = odd * 5^prec / 2,
+// an exact half-integer in double arithmetic.  The exported function and the C++ call receive the same doubles; they must
+// round them the same way (both go through Point64's std::round-based constructor).
+static void add_ties(Rng& g, PathsD& pd, int prec) {
+  if (prec < 0 || prec > 8 || !g.chance(40)) return;
+  const double den = std::ldexp(1.0, prec + 1);
+  bool any = false;
+  for (auto& p : pd)
+    for (auto& q : p) {
+      if (g.chance(40)) { q.x = (double)(2 * g.range(-40, 40) + 1) / den + std::floor(q.x); any = true; }
+      if (g.chance(40)) { q.y = (double)(2 * g.range(-40, 40) + 1) / den + std::floor(q.y); any = true; }
+    }
+  if (any) stat("gen.D.inputs_with_rounding_ties");
+}
 static void shape_stats(const char* what, const Paths64& ps) {
   stat(std::string("gen.") + what + ".sets");
   if (ps.empty()) stat(std::string("gen.") + what + ".empty_list");
@@ -648,6 +662,7 @@ static void spec_inflate(Rng& g, int rounds) {
       ad.prec = precs[g.next() % 7];
       int dec = ad.prec < 0 ? ad.prec : std::min(ad.prec, 2);
       PathsD pd = to_D(ps, dec);
+      add_ties(g, pd, ad.prec);
       double f = std::pow(10.0, -dec);
       ad.delta = a.delta * f;
       // arc_tolerance is varied only where scale == 1 while the known defect is present
@@ -739,6 +754,7 @@ static void spec_rect_mink(Rng& g, int rounds) {
       int prec = precs[g.next() % 6];
       int dec = prec < 0 ? prec : std::min(prec, 2);
       PathsD pd = to_D(ps, dec);
+      add_ties(g, pd, prec);
       double f = std::pow(10.0, -dec);
       RectD rd(rc.left * f, rc.top * f, rc.right * f, rc.bottom * f);
       CRectD crd{rd.left, rd.top, rd.right, rd.bottom};
